@@ -191,7 +191,7 @@ func buildTypes(u *gengotypes.Universe, t tlTree) (types.Type, error) {
 	case "struct1":
 		return types.NewStruct([]*types.Var{types.NewField(token.NoPos, nil, "F", subs[0], false)}, []string{tlTag}), nil
 	case "struct2":
-		return types.NewStruct([]*types.Var{types.NewField(token.NoPos, nil, embeddedName(subs[0]), subs[0], true), types.NewField(token.NoPos, nil, "G", subs[1], false)}, []string{"", ""}), nil
+		return types.NewStruct([]*types.Var{types.NewField(token.NoPos, nil, embeddedName(subs[0]), subs[0], true), types.NewField(token.NoPos, nil, "G", subs[1], false)}, []string{`json:",inline"`, ""}), nil
 	}
 	return nil, fmt.Errorf("unknown constructor %q", t.K)
 }
@@ -223,7 +223,7 @@ func buildReflect(t tlTree) (reflect.Type, error) {
 	case "struct1":
 		return reflect.StructOf([]reflect.StructField{{Name: "F", Type: subs[0], Tag: reflect.StructTag(tlTag)}}), nil
 	case "struct2":
-		return reflect.StructOf([]reflect.StructField{{Name: subs[0].Name()[:strings.IndexAny(subs[0].Name()+"[", "[")], Type: subs[0], Anonymous: true}, {Name: "G", Type: subs[1]}}), nil
+		return reflect.StructOf([]reflect.StructField{{Name: subs[0].Name()[:strings.IndexAny(subs[0].Name()+"[", "[")], Type: subs[0], Anonymous: true, Tag: `json:",inline"`}, {Name: "G", Type: subs[1]}}), nil
 	}
 	return nil, fmt.Errorf("unknown constructor %q", t.K)
 }
